@@ -329,12 +329,18 @@ class CallMixin:
                     cur.env = saved_env
                     self.frame_check(tgt, cur, fr, node)
                     cur.env = dict(env)
+                if type(hobj).__name__ == "HBO":
+                    cur.env = saved_env
+                    self.bo_frame(tgt, cur, fr, node, "bytes")
+                    cur.env = dict(env)
                 if isinstance(hobj, HArr):
                     root = self.root(cur, tgt)
                     if cur.get(root).org is not None:
                         composed.append((root, cur.get(root).org))
                 self.havoc_heap(tgt, cur, "%s@call%d" % (m, next(_cc)))
         # 4. result + postconditions
+        if cur.dead:
+            return          # a precondition / frame obligation with goal False already failed on this path
         results = [(cur, None)]
         if c.gen:
             from .prims import IterView
